@@ -1467,6 +1467,36 @@ pub fn level_iter_damaged(
     Some(out)
 }
 
+/// Tables with the given numbers are written (each holds one key: its own number in decimal); then a fresh table cache is asked
+/// for `lookups` in order (`Some(n)` = find_table(n), `None` followed by a number is not used; a negative... see `removes`):
+/// before lookup i every number in `removes[i]` is removed from the cache. Returns, per lookup, the key found in the returned table.
+pub fn table_cache_scenario(options: &DbOptions, numbers: &[u64], lookups: &[u64], removes: &[Vec<u64>]) -> Option<Vec<Option<u64>>> {
+    for n in numbers {
+        let mut b = TableBuilder::new(options.clone(), *n).ok()?;
+        b.add_entry(std::rc::Rc::new(InternalKey::new(n.to_string().into_bytes(), 1, Operation::Put)), b"v").ok()?;
+        b.finalize().ok()?;
+        core::mem::forget(b);
+    }
+    let tc = TableCache::new(options.clone(), 10);
+    let mut out = vec![];
+    for (i, n) in lookups.iter().enumerate() {
+        if let Some(rs) = removes.get(i) {
+            for r in rs {
+                tc.remove(*r);
+            }
+        }
+        out.push(match tc.find_table(*n) {
+            Ok(t) => {
+                let mut it = Table::iter_with(t, ReadOptions { fill_cache: false, snapshot: None });
+                let _ = it.seek_to_first();
+                it.current().and_then(|(k, _)| String::from_utf8_lossy(k.get_user_key()).parse::<u64>().ok())
+            }
+            Err(_) => None,
+        });
+    }
+    Some(out)
+}
+
 /// Serialise a log fragment of the given type (0 Full, 1 First, 2 Middle, 3 Last) and payload and parse it back.
 /// Returns (type, payload) of the parsed fragment (None: the bytes did not parse).
 pub fn block_record_roundtrip(block_type: u8, data: &[u8]) -> Option<(u8, Vec<u8>)> {
